@@ -81,6 +81,37 @@ def run(ctx):
             want = float(np.exp(-sum(c * d for c, d in zip(coef, legs))))
             if not (rel(a1, a2, 1e-12) and rel(a1, want, 1e-12)):
                 ctx.violate(f"material attenuation {a1} (reversed path {a2}) is not exp(-sum alpha d) = {want}", cj, {"kind": "attenuation"})
+            # the laws written out independently of the library (constant: alpha; polynomial [c0, c1]: c0 + c1 f/MHz)
+            law = {("blk", "L"): alphas[0], ("blk", "T"): alphas[-1] + 1.5 * (f / 1e6), ("cpl", "L"): alphas[0] / 3}
+            coef_ind = [law[("blk" if m is blk else "cpl", md.key() if hasattr(md, "key") else str(md))] for m, md in zip(mats, path.modes)]
+            want_ind = float(np.exp(-sum(c * d for c, d in zip(coef_ind, legs))))
+            if not rel(a1, want_ind, 1e-12):
+                ctx.violate(f"material attenuation {a1} is not exp(-sum alpha_k(f) d_k) = {want_ind} with the documented constant / polynomial laws", cj, {"kind": "attenuation_law"})
+            # the frequency may reach the function as a Python float, a NumPy scalar or an array the caller keeps: same answer,
+            # forwards and backwards, the first time and the second time, and the caller's array is left alone
+            for fc in (np.float64(f), np.array(f), np.array([f]), np.array([[f]])):
+                keep = np.array(fc, copy=True)
+                got = []
+                for rep_ in range(2):
+                    got.append(float(np.ravel(model.material_attenuation_for_path(p_att, rg, fc))[0]))
+                    got.append(float(np.ravel(model.material_attenuation_for_path(r_att, ray.RayGeometry.from_path(r_att), fc))[0]))
+                ctx.count("attenuation:frequency_as_" + type(fc).__name__ + str(np.shape(fc)))
+                if not np.array_equal(np.asarray(fc), keep):
+                    ctx.violate(f"material_attenuation_for_path modified the frequency array it was given ({keep.ravel()[0]} -> {np.asarray(fc).ravel()[0]})", cj, {"kind": "attenuation_input"})
+                    break
+                if not all(rel(g_, a1, 1e-12) for g_ in got):
+                    ctx.violate(f"material attenuation depends on how the frequency is passed / on the call history: {got} vs {a1} (frequency as {type(fc).__name__}{np.shape(fc)})", cj, {"kind": "attenuation_input"})
+                    break
+            # a material that declares no attenuation for a mode contributes nothing
+            blk_noT = arim.Material(blk.longitudinal_vel, blk.transverse_vel, density=blk.density, state_of_matter="solid",
+                                    longitudinal_att=arim.material_attenuation_factory("constant", alphas[0]))
+            mats3 = tuple(blk_noT if m is blk else cpl for m in mats)
+            p3 = arim.Path(path.interfaces, mats3, path.modes, name=path.name)
+            p3.rays = path.rays
+            a3 = float(model.material_attenuation_for_path(p3, rg, f)[0, 0])
+            want3 = float(np.exp(-sum((0.0 if (m is blk and (md.key() if hasattr(md, "key") else str(md)) == "T") else c) * d for c, d, m, md in zip(coef_ind, legs, mats, path.modes))))
+            if not rel(a3, want3, 1e-12):
+                ctx.violate(f"a mode without attenuation law must not attenuate: got {a3}, expected {want3}", cj, {"kind": "attenuation_none"})
             att = (a1, [float(c) for c in coef])
         # ---- correspondence
         if a is not None:
